@@ -1,0 +1,46 @@
+//go:build verif
+// +build verif
+
+package wsutil
+
+import "github.com/gobwas/ws"
+
+// Exported views of package internals for the external verification harness.
+// Compiled only with -tags verif; nothing here changes library behaviour.
+
+var (
+	VerifLen7       = len7
+	VerifLen16      = len16
+	VerifLen64      = len64
+	VerifUtf8Accept = utf8Accept
+	VerifUtf8Reject = utf8Reject
+)
+
+func VerifUtf8d() []byte { return append([]byte(nil), utf8d[:]...) }
+
+func VerifDecode(state, codep uint32, b byte) (uint32, uint32) { return decode(state, codep, b) }
+func VerifReserve(state ws.State, n int) int                   { return reserve(state, n) }
+func VerifHeaderSize(s ws.State, n int) int                    { return headerSize(s, n) }
+func VerifCeilPowerOfTwo(n int) int                            { return ceilPowerOfTwo(n) }
+
+// Read-only accessors of private state.
+func (w *Writer) VerifRawLen() int     { return len(w.raw) }
+func (w *Writer) VerifBufLen() int     { return len(w.buf) }
+func (w *Writer) VerifDirty() bool     { return w.dirty }
+func (w *Writer) VerifFseq() int       { return w.fseq }
+func (w *Writer) VerifErr() error      { return w.err }
+func (w *Writer) VerifNoFlush() bool   { return w.noFlush }
+func (w *Writer) VerifNExt() int       { return len(w.extensions) }
+func (w *Writer) VerifState() ws.State { return w.state }
+func (w *Writer) VerifOp() ws.OpCode   { return w.op }
+
+func (c *ControlWriter) VerifLimit() int      { return c.limit }
+func (c *ControlWriter) VerifN() int          { return c.n }
+func (c *ControlWriter) VerifWriter() *Writer { return c.w }
+
+func (r *Reader) VerifOpCode() ws.OpCode { return r.opCode }
+func (r *Reader) VerifFrameNil() bool    { return r.frame == nil }
+func (r *Reader) VerifRawN() int64       { return r.raw.N }
+func (r *Reader) VerifUtf8State() uint32 { return r.utf8.state }
+
+func (u *UTF8Reader) VerifState() uint32 { return u.state }
